@@ -15,10 +15,10 @@ RULE = ("(a) exhaustive presence patterns of K<=3 animals over F<=4 frames (each
 ASSUMPTIONS = ["every detection has at least one visible node (an all-NaN pose has no features)", "a fresh Tracker per history",
                "detections are sio.PredictedInstance objects with finite scores"]
 SHARDS = {"quick": 4, "thorough": 16}
-BUDGET = {"quick": 110, "thorough": 1500}
+BUDGET = {"quick": 110, "thorough": 600}
 TIMEOUT = {"quick": 600, "thorough": 3000}
 SELF_SHARDED = True
-N_RANDOM = {"quick": 2500, "thorough": 400000}
+N_RANDOM = {"quick": 2500, "thorough": 1200000}
 CONFIGS = list(tc.all_configs())
 
 
